@@ -3,5 +3,5 @@
 cd "$(dirname "$0")/.."
 python3 tools/crc2coq.py coq/Gen/CrcGen.v
 [ -f tools/consts2coq.py ] && python3 tools/consts2coq.py coq/Gen/Consts.v
-[ -f tools/bf2coq.py ] && python3 tools/bf2coq.py coq/Gen
+python3 tools/bf2coq.py coq/Gen; python3 tools/bfproofs.py coq/Gen
 exit 0
